@@ -745,6 +745,7 @@ def run(res: Results, idx: Index, tier: str) -> None:
     rule_f(res, idx, m, passes)
     rule_f_inner(res, idx, m)
     rule_g(res, idx, m)
+    rule_h(res, idx, m)
 
 
 # ---------------------------------------------------------------------------------------------- R-C02g
@@ -802,3 +803,45 @@ def rule_g(res: Results, idx: Index, m: Module) -> None:
         res.ok("R-C02g", f"{OPT}:{g.node.lineno}", key, "every graph output is compared by identity and by name", g.qualname)
     else:
         res.violation("R-C02g", f"{OPT}:{g.node.lineno}", key, "_value_is_graph_output no longer compares the value with every graph output by identity and by name", g.qualname)
+
+
+# ---------------------------------------------------------------------------------------------- R-C02h
+def rule_h(res: Results, idx: Index, m: Module) -> None:
+    """Semantic helpers the preconditions rely on, decided on their whole (small) finite domain by evaluating
+    their expression trees: _is_inverse_perm(p1, p2) must hold exactly when Transpose(Transpose(x, p1), p2) == x."""
+    import itertools
+    from ..symeval import EvalRaise, Evaluator, Unsupported
+    res.rule("R-C02h", "_is_inverse_perm accepts a pair of permutations only if their composition is the identity (all pairs up to rank 4, plus length mismatches)", floor=1)
+    f = m.funcs.get("_is_inverse_perm")
+    if f is None:
+        raise AnalysisError("_is_inverse_perm no longer exists")
+    ev = Evaluator(idx, {})
+    key = _key(f, "semantics")
+    n = 0
+    try:
+        for r in range(1, 5):
+            perms = [list(p) for p in itertools.permutations(range(r))]
+            for p1 in perms:
+                for p2 in perms:
+                    n += 1
+                    got = bool(ev.call(f, [list(p1), list(p2)]))
+                    # y = transpose(x, p1): y.shape[i] = x.shape[p1[i]];  z = transpose(y, p2): z axis i = x axis p1[p2[i]]
+                    want = all(p1[p2[i]] == i for i in range(r))
+                    if got and not want:
+                        res.violation("R-C02h", f"{OPT}:{f.node.lineno}", key, f"_is_inverse_perm({p1}, {p2}) is True but Transpose(perm={p2}) after Transpose(perm={p1}) is not the identity", f.qualname)
+                        return
+        for p1, p2 in (([0, 1], [0, 1, 2]), ([1, 0, 2], [1, 0])):
+            n += 1
+            try:
+                if ev.call(f, [p1, p2]):
+                    res.violation("R-C02h", f"{OPT}:{f.node.lineno}", key, f"_is_inverse_perm({p1}, {p2}) accepts permutations of different rank", f.qualname)
+                    return
+            except EvalRaise:
+                pass
+    except Unsupported as e:
+        res.unresolved("R-C02h", f"{OPT}:{f.node.lineno}", key, f"outside the evaluator's subset: {e}", f.qualname)
+        return
+    except EvalRaise as e:
+        res.unresolved("R-C02h", f"{OPT}:{f.node.lineno}", key, f"raises {e.name} on a valid permutation pair", f.qualname)
+        return
+    res.ok("R-C02h", f"{OPT}:{f.node.lineno}", key, f"sound on all {n} permutation pairs of rank 1..4", f.qualname)
